@@ -40,6 +40,7 @@ class History:
         self.conn = {}          # (T, ns) -> sid
         self.out = {}           # sid -> {id: token}
         self.used = {}          # sid -> set of ids already acknowledged
+        self.ended = {}         # (T, ns) -> ids outstanding at a session end
         self.fired = set()      # tokens whose callback ran
         self.nT = 0
         self.open_T = []
@@ -144,15 +145,22 @@ class History:
         w = self.witness(res, extra)
         self.ctx.violation(classify(w), what, w)
 
-    def drop_sid(self, sid):
-        self.out.pop(sid, None)
+    def drop_sid(self, sid, key=None):
+        gone = self.out.pop(sid, None) or {}
         self.used.pop(sid, None)
+        if key is not None and gone:
+            # ids that were outstanding when the session ended: a late ACK
+            # bearing one of them (same transport, same namespace) must not
+            # invoke anything
+            self.ended.setdefault(key, set()).update(gone)
 
     def pick_ack_id(self, sid, T, ns):
         """Returns (id, class)."""
         rng = self.rng
         mine = self.out.get(sid, {}) if sid else {}
         r = rng.random()
+        if not sid and self.ended.get((T, ns)) and r < 0.7:
+            return rng.choice(sorted(self.ended[(T, ns)])), 'ended_session'
         if r > 0.96:
             # an acknowledgement that carries no id at all
             return None, 'noid'
@@ -465,8 +473,17 @@ class History:
             op = ['sdisc', sid, ns]
         else:
             op = ['lose', T]
+        # some disconnect handlers fail: the session has ended all the same
+        faulted = rng.random() < 0.3
+        if faulted:
+            self.r.disconnect_script = ['exc'] * 4
+            op = op + ['handler raises']
         self.ops.append(op)
-        res = self.r.step(op)
+        res = self.r.step(op[:3] if faulted else op)
+        self.r.disconnect_script = []
+        if faulted:
+            self.r.d.clear_errors()
+            self.ctx.count('disconnects_with_failing_handler')
         if [e for e in res['events'] if e[0] == 'callback']:
             return self.fail('a callback was invoked by a disconnect', res)
         if op[0] == 'lose':
@@ -474,7 +491,9 @@ class History:
             for key in [k2 for k2 in self.conn if k2[0] == T]:
                 self.drop_sid(self.conn.pop(key))
         else:
-            self.drop_sid(self.conn.pop((T, ns)))
+            self.drop_sid(self.conn.pop((T, ns)), (T, ns))
+            # (the transport stays open: late ACKs of the ended session and
+            # a new CONNECT of the namespace are possible)
         self.ctx.count('disconnects')
 
     # ------------------------------------------------------------- call()
@@ -792,8 +811,9 @@ def run(ctx):
     ctx.require('duplicate_ack_races_2_frames', 2)
     ctx.require('acks_with_raising_callback', 5)
     for cls in ('correct', 'duplicate', 'zero', 'foreign', 'never_issued',
-                'noid'):
+                'noid', 'ended_session'):
         ctx.require('acks_' + cls, 3)
+    ctx.require('disconnects_with_failing_handler', 5)
     # two threads emitting with callbacks at the same time (handlers run in
     # a thread each): distinct ids, each callback once with its own ACK
     from checks import ackid_sched
